@@ -136,6 +136,7 @@ structure Conn where
   session : Option SessId := none
   tunnel : Tunnel := .none
   phase : Phase := .fresh
+  armed : Bool := true     -- the read deadline the reader set when it started to wait for the next message
   deriving DecidableEq, Repr, Inhabited
 
 /-- The server's resource tables.  `udpRtp` / `udpRtcp` are the `clients` maps of the two UDP
@@ -403,14 +404,19 @@ def startRecord (st : State) (s : Sess) : State :=
 def setPhase (st : State) (c : ConnId) (p : Phase) : State :=
   { st with conns := st.conns.map fun x => if x.id == c then { x with phase := p } else x }
 
+/-- `SetReadDeadline` on every connection of a session (PAUSE of a recording session) -/
+def armConns (st : State) (cs : List ConnId) : State :=
+  { st with conns := st.conns.map fun x => if cs.contains x.id then { x with armed := true } else x }
+
 /-- PAUSE of a streaming session: the write queue goes (not for multicast), the stream marks the
 reader inactive, the medias unregister their UDP ports, the reader of a TCP connection goes back
-to `readFuncStandard` -/
+to `readFuncStandard`; the connections of a session that recorded get their read deadline back -/
 def pauseTo (st : State) (c : ConnId) (s : Sess) (target : SState) : State :=
   let st := { st with writers := if isMcast s then st.writers else st.writers.filter (· != s.id),
                       active := st.active.filter (· != s.id) }
   let st := setSess (stopMedias st s) { s with state := target, tcpConn := if isTcp s then none else s.tcpConn }
-  if isTcp s then setPhase st c .standard else st
+  let st := if isTcp s then setPhase st c .standard else st
+  if s.state == .record then armConns st s.conns else st
 
 /-- The state change of a successful request (session `s` is the current record of the session).
 Every case is guarded by the state the verdict was computed in (`decideInSession` has checked it:
@@ -545,15 +551,24 @@ def rtspInput (st : State) (c : Conn) : Input → State × List Out
   | .skipped => (st, [Out.consumed c.id])
   | _ => closeConn st c     -- malformed, response, eof, idle, HTTP after the first message
 
-/-- the read deadline of the connection is armed (`readFuncStandard` disables it while the session
-records; `readFuncTCP` and `handleTunneling` always arm one) -/
-def deadlineArmed (st : State) (c : Conn) : Bool :=
+/-- The deadline a reader sets when it starts to wait for the next message: `readFuncStandard`
+sets none while the session records, `readFuncTCP` and `handleTunneling` always set one. -/
+def deadlineFor (st : State) (c : Conn) : Bool :=
   match c.phase with
   | .standard =>
     (match c.session.bind (findSess st) with
      | some s => s.state != .record
      | none => true)
   | _ => true
+
+/-- the read deadline of the connection is armed -/
+def deadlineArmed (_st : State) (c : Conn) : Bool := c.armed
+
+/-- the reader of connection `c` goes back to waiting (if the connection is still there) -/
+def rearm (st : State) (c : ConnId) : State :=
+  match findConn st c with
+  | some x => setConn st { x with armed := deadlineFor st x }
+  | none => st
 
 /-- `s.conns[sc] = struct{}{}` (a connection id is never reused) -/
 def addConn (st : State) (c : Conn) : State :=
@@ -590,15 +605,21 @@ def lateInput (st : State) (c : Conn) : Input → State × List Out
   | .httpGet _ | .httpPost _ _ | .httpOther | .wsUpgrade _ => closeConn st c   -- not RTSP: parse error
   | i => rtspInput st c i
 
-/-- one input on connection `c` -/
-def connInput (st : State) (c : Conn) (i : Input) : State × List Out :=
-  if i == .idle && !deadlineArmed st c then (st, []) else
+/-- one input on connection `c`, before the reader goes back to waiting -/
+def connInput0 (st : State) (c : Conn) (i : Input) : State × List Out :=
   match c.phase with
   | .httpWait _ =>
     -- nothing is read while the GET channel waits for its POST; only the 5 s timer ends the wait
     if i == .idle then closeConn st c else (st, [])
   | .fresh => freshInput st c i
   | _ => lateInput st c i
+
+/-- one input on connection `c`.  Skipped bytes are discarded inside one `Conn.Read`: the deadline
+set before is not renewed. -/
+def connInput (st : State) (c : Conn) (i : Input) : State × List Out :=
+  if i == .idle && !deadlineArmed st c then (st, [])
+  else if i == .skipped then connInput0 st c i
+  else (rearm (connInput0 st c i).1 c.id, (connInput0 st c i).2)
 
 def step (st : State) : Event → State × List Out
   | .accept c =>
